@@ -227,17 +227,23 @@ def strLit (s : List Char) (pos : Pos) : Node := .lit (.str s) pos
 
 /-! ### `return` unwrapping (`parse`, `NodeLambda.setBody`) -/
 
+/-- `lastexpr.expression or NodeNull(lastexpr.pos)`: the operand of a final `return`; a bare `return;` is NULL -/
+def returnOperand (e : Node) (p : Pos) : Node :=
+  match e with
+  | .absent => .null p
+  | e => e
+
 /-- replace a trailing `NodeReturn` of a list of expressions by its expression -/
 def unwrapLastReturn : List Node → List Node
   | [] => []
-  | [.ret e _] => [e]
+  | [.ret e p] => [returnOperand e p]
   | [x] => [x]
   | x :: y :: rest => x :: unwrapLastReturn (y :: rest)
 
 /-- the common part of `parse` and `NodeLambda.setBody` -/
 def unwrapReturn : Node → Node
   | .block es ce ch fin tl p => .block (unwrapLastReturn es) ce ch fin tl p
-  | .ret e _ => e
+  | .ret e p => returnOperand e p
   | n => n
 
 /-- `if len(exprs) == 1 and not hasFinally and not hasCatch: return exprs[0]` -/
